@@ -66,8 +66,11 @@ func drainChannel[T any](ch <-chan T) {
 
 func cleanInfiniteChannel(ch *channels.InfiniteChannel) {
 	ch.Close()
-	// drain all remaining items
-	drainChannel(ch.Out())
+	// drain all remaining items: the channel's pump goroutine hands over what
+	// it still buffers and then closes the output. Stopping at the first
+	// moment the output is empty leaves it blocked on the next send for good.
+	for range ch.Out() {
+	}
 }
 
 // Returns the binary formatted Administrative Shutdown Communication from the
